@@ -155,6 +155,15 @@ fn build(c: &Case, values: &[Vec<u8>]) -> std::io::Result<Vec<u8>> {
         1 => {
             // new (control bytes via BitOr, operands in the other order) + addresses payload + TLV structs
             let mut b = Builder::new(cmd | Version::Two, fam | proto).write_payload(addr)?;
+            if c.route >= 10 {
+                // the TLV section encoded beforehand (by the harness) and handed over as one raw byte slice
+                let mut section = Vec::new();
+                for (t, v) in c.tlvs.iter().zip(values) {
+                    let kind = t.named.map(|i| enc::TYPE_CODES[i].1).unwrap_or(t.kind);
+                    section.extend(enc::enc_tlv(kind, v).expect("generator keeps values <= 65535"));
+                }
+                return b.write_payload(section.as_slice())?.build();
+            }
             for (t, v) in c.tlvs.iter().zip(values) {
                 let tlv = match t.named {
                     Some(i) => TypeLengthValue::new(TYPES[i], v),
@@ -242,7 +251,12 @@ fn build(c: &Case, values: &[Vec<u8>]) -> std::io::Result<Vec<u8>> {
                     None => TypeLengthValue::new(t.kind, v),
                 })
                 .collect();
-            with_addr(c, Version::Two | cmd, proto, addr).write_payloads(items.iter())?.build()
+            if c.tlvs.len() % 3 == 0 {
+                // an optional batch that turned out empty comes first
+                with_addr(c, Version::Two | cmd, proto, addr).write_payloads(std::iter::empty::<TypeLengthValue>())?.write_payloads(items.iter())?.build()
+            } else {
+                with_addr(c, Version::Two | cmd, proto, addr).write_payloads(items.iter())?.build()
+            }
         }
         6 => {
             // new + two batches (addresses, then tuples), capacity reserved in between
